@@ -67,3 +67,24 @@ Lemma witness_ip6_unspecified :
   result_of (check_host_c w13_zone (w_sess 42540766411282592856903984951653826561 []) w_name None None) = Some SPF_PERMERROR
   /\ rfc_check_host w13_zone (w_sess 42540766411282592856903984951653826561 []) w_name = RCode SPF_NEUTRAL.
 Proof. split; vm_compute; reflexivity. Qed.
+
+(** ---- inside the proved class: two zones on which the strict reference gives a result *)
+From Qv Require Import Proofs.SpfAgree.
+Definition w_b : bytes := [98; 46; 101; 120; 97; 109; 112; 108; 101].                     (* b.example *)
+(** d.example: "v=spf1 ip4:10.0.0.0/8 a:b.example/24 include:b.example ~all", b.example: "v=spf1 mx -all" with MX 1.2.3.4 *)
+Definition wc_zone : dns :=
+  zone_dns [ZT w_name (TxtRecs [rec_of ([105;112;52;58;49;48;46;48;46;48;46;48;47;56;32;97;58] ++ w_b ++ [47;50;52;32;105;110;99;108;117;100;101;58] ++ w_b ++ [32;126;97;108;108])]);
+            ZT w_b (TxtRecs [rec_of [109;120;32;45;97;108;108]]);
+            ZA w_b (AList [281470698652421]);
+            ZM w_b (MxList [(10, [w_v4])])].
+Lemma class_example_pass :
+  in_class wc_zone (w_sess w_v4 []) w_name = true
+  /\ rfc_check_host wc_zone (w_sess w_v4 []) w_name = RCode SPF_PASS
+  /\ result_of (check_host_c wc_zone (w_sess w_v4 []) w_name None None) = Some SPF_PASS.
+Proof. repeat split; vm_compute; reflexivity. Qed.
+(** the same zone, another client: ~all *)
+Lemma class_example_softfail :
+  in_class wc_zone (w_sess 281470698652999 []) w_name = true
+  /\ rfc_check_host wc_zone (w_sess 281470698652999 []) w_name = RCode SPF_SOFTFAIL
+  /\ result_of (check_host_c wc_zone (w_sess 281470698652999 []) w_name None None) = Some SPF_SOFTFAIL.
+Proof. repeat split; vm_compute; reflexivity. Qed.
